@@ -116,8 +116,21 @@ def gen_case(seed, tier, index=0):
                 e['launch_fail'] = rr.choice(['oserror', 'joblaunch', 'joblaunch', 'valueerror'])
         if rr.random() < 0.3:
             plan['O']['default']['launch_fail'] = rr.choice(['oserror', 'joblaunch'])
+    # the shared file system is flaky for a while: listing producer directories fails during seeded windows
+    windows = []
+    if rr.random() < 0.15:
+        start = rr.choice([0.0, 5.0, 20.0, 40.0])
+        windows = [[start, start + rr.choice([3.0, 12.0, 40.0, 200.0, 400.0, 1000.0])]]
+        if rr.random() < 0.5:
+            # a long outage while long-running repeating producers are observed: the monitor of the observer meets the
+            # error again and again
+            windows = [[start, start + rr.choice([400.0, 1000.0])]]
+            for c in comps[:-1]:
+                c['repeat'] = c.get('repeat') or {'interval': rr.choice([3, 6]), 'retries': None}
+                plan[c['name']]['default']['dur'] = rr.choice([120.0, 300.0])
+                plan[c['name']].setdefault('execs', [{'exit': 'Success'} for _ in range(3)])
     return {'comps': comps, 'plan': plan, 'hook': {}, 'knobs': common.knobs_from(rr, tier),
-            'sched_seed': rr.getrandbits(48)}
+            'sched_seed': rr.getrandbits(48), 'listdir_errors': windows}
 
 
 def shrink_candidates(case):
@@ -184,10 +197,15 @@ def run_case(case, schedule, opts):
         has = []
         for p in job.producerInstances:
             if p.stageIndex == job.stageIndex:
+                # the harness looks at the directory itself, past the injected listing errors
+                saved = R.LISTDIR_FAULT['windows']
+                R.LISTDIR_FAULT['windows'] = []
                 try:
                     has.append(len(p.workingDirectory.output) > 0)
                 except Exception:
                     has.append(None)
+                finally:
+                    R.LISTDIR_FAULT['windows'] = saved
         launch_info.append({'n': n, 'producer_has_output': has})
 
     ctx.on_launch = on_launch
@@ -196,6 +214,8 @@ def run_case(case, schedule, opts):
     try:
         exp = R.build_experiment(render(case), root)
         ctx.exp = exp
+        R.LISTDIR_FAULT['windows'] = case.get('listdir_errors') or []
+        R.LISTDIR_FAULT['t0'] = K.clock
         controller, comps = R.new_controller(exp)
         ctx.controller = controller
         outcomes = R.run_stages(exp, controller, REC)
@@ -239,7 +259,11 @@ def run_case(case, schedule, opts):
         stopped = not oeng.isAlive()
         could_consume = bool(oeng.consume)
         # (b) once all producers finished, it does not stop before an execution that began after their last output
-        if stopped and notif and not ext_cancel and kill_after is None and could_consume and None not in p_last:
+        # (an observer whose monitor met six listing errors has been stopped by the outage, not by its own decision)
+        outage = REC.counters.get('fault.listdir_eio', 0) >= 6
+        if outage:
+            REC.count('probe.observer_exposed_to_a_long_listing_outage')
+        if stopped and notif and not ext_cancel and kill_after is None and could_consume and None not in p_last and not outage:
             last_out = max(p_last)
             # an execution the backend refused (failed submission) was still started by the engine
             o_refused = [e for e in ev if e[2] == 'launch-fail' and e[3] == oref]
